@@ -44,7 +44,9 @@ def return_arity(ctx: Ctx, rule: str):
     for mname in ("rhs", "monitor_values", "missing_values", "scheme"):
         f = util.nff(ctx, cgc.methods[mname])
         tc = util.template_method_call(f)
-        ctx.require(tc, f"CodeGenerator.{mname}: template.method call not found")
+        if tc is None:
+            ctx.undecided("R03.a", f.key("num_return_values"), f"CodeGenerator.{mname}: the template.method(...) call is not found in the method's normal form; the arity it hands over is not judged", f.where())
+            continue
         nrv = call_kw(tc, "num_return_values")
         # family of the array the method fills
         if mname == "scheme":
